@@ -3,7 +3,7 @@
    Models: Model/Gradient.v (read_parameters heuristics + Reservoir.Calculate walk), Model/Drawdown.v
    (reservoir models 1-4), Model/Redrill.v (WellBores.Calculate redrilling step). *)
 From Coq Require Import QArith Qminmax List ZArith Bool Lia Lqa.
-From Verif Require Import Base.Flat Model.Gradient Model.Redrill Model.Drawdown
+From Verif Require Import Base.Flat Model.Gradient Model.Redrill Model.Drawdown Model.ResCalc Proofs.ResCalcProofs
   Proofs.GradientProofs Proofs.RedrillProofs Proofs.DrawdownProofs Gen.C05Ranges Proofs.C05RangeProofs.
 Import ListNotations.
 Open Scope Q_scope.
@@ -234,6 +234,98 @@ Theorem C05_periodic_checker_sound : forall idx l, periodic idx l = true ->
 Proof. exact periodic_sound. Qed.
 Print Assumptions C05_periodic_checker_sound.
 
+(* the monotone-within-cycles checker: an accepted series never rises inside a cycle (tol = 0: slack = 0) *)
+Theorem C05_monotone_checker_sound : forall tol idx l, noninc_between tol idx l = true ->
+  forall j, (S j < length l)%nat -> (S j mod cycle_of idx l <> 0)%nat ->
+    nth (S j) l 0 <= nth j l 0 + slack tol (nth j l 0).
+Proof. exact noninc_between_sound. Qed.
+Print Assumptions C05_monotone_checker_sound.
+
+Theorem C05_bound_checker_sound : forall hi l, all_le hi l = true -> Forall (fun x => x <= hi) l.
+Proof. exact all_le_sound. Qed.
+Print Assumptions C05_bound_checker_sound.
+
+(* the model-2 range checker (run on every model-2 history) *)
+Theorem C05_lhs_range_checker_sound : forall Trock Tinj l, lhs_range_ok 0 Trock Tinj l = true ->
+  Forall (fun x => x == Trock \/ (Tinj <= x /\ x <= Trock)) l.
+Proof. exact lhs_range_ok_sound. Qed.
+Print Assumptions C05_lhs_range_checker_sound.
+
+(* ================================ the rest of Reservoir.Calculate ================================ *)
+
+(* average gradient x (capped) depth = bottom-hole temperature - surface temperature, for 1..4 segments *)
+Theorem C05_average_gradient : forall n Ts Tmax gs ths depth,
+  (1 <= n <= 4)%nat -> (n <= length gs)%nat -> (n <= length ths)%nat ->
+  Forall (fun g => 0 < g) gs -> Forall (fun t => 0 < t) ths ->
+  Ts < Tmax -> Tmax < 1000 -> 0 < depth -> depth <= sumQ (firstn n ths) ->
+  exists T d, bht_code n Ts Tmax gs ths depth = Good (T, d) /\ 0 < d /\
+              average_gradient n gs Ts T d * d == T - Ts.
+Proof. exact average_gradient_spec. Qed.
+Print Assumptions C05_average_gradient.
+
+(* fracture geometry by shape option; sqrt enters as the premise r*r == 4/pi*area *)
+Theorem C05_fracture_geometry : forall pi sq s,
+  (let g := frac_geometry 1 pi sq s in
+     fs_height g = sq /\ fs_width g = sq /\ fs_area g = fs_area s /\
+     (~ pi == 0 -> sq * sq == 4 / pi * fs_area s -> pi / 4 * fs_height g * fs_width g == fs_area g)) /\
+  (let g := frac_geometry 2 pi sq s in
+     fs_height g = fs_height s /\ fs_width g = fs_height s /\ fs_area g = pi / 4 * fs_height s * fs_height s) /\
+  (let g := frac_geometry 3 pi sq s in
+     fs_height g = fs_height s /\ fs_width g = fs_height s /\ fs_area g = fs_height s * fs_height s) /\
+  (let g := frac_geometry 4 pi sq s in
+     fs_height g = fs_height s /\ fs_width g = fs_width s /\ fs_area g = fs_height s * fs_width s).
+Proof. exact geometry_shapes. Qed.
+Print Assumptions C05_fracture_geometry.
+
+(* reservoir volume options 1-3: whichever quantity is derived, V = (N - 1) x A x separation afterwards *)
+Theorem C05_volume_identity : forall r s, geometry_of r = Good s -> (1 <= ri_opt r <= 3)%Z ->
+  fs_vol s == (fs_numb s - 1) * fs_area s * fs_sep s.
+Proof. exact volume_identity. Qed.
+Print Assumptions C05_volume_identity.
+
+(* option 4: the supplied volume (and fracture number and separation) verbatim *)
+Theorem C05_volume_option4_verbatim : forall r, ri_opt r = 4%Z ->
+  exists s, geometry_of r = Good s /\ fs_vol s = ri_resvol r /\ fs_numb s = ri_numb r /\ fs_sep s = ri_sep r.
+Proof. exact volume_option4_verbatim. Qed.
+Print Assumptions C05_volume_option4_verbatim.
+
+Theorem C05_heat_linear_in_volume : forall k vol rho cp T Tinj,
+  heat_content (k * vol) rho cp T Tinj == k * heat_content vol rho cp T Tinj.
+Proof. exact heat_linear_in_volume. Qed.
+Print Assumptions C05_heat_linear_in_volume.
+
+Theorem C05_heat_additive_in_volume : forall v1 v2 rho cp T Tinj,
+  heat_content (v1 + v2) rho cp T Tinj == heat_content v1 rho cp T Tinj + heat_content v2 rho cp T Tinj.
+Proof. exact heat_additive_in_volume. Qed.
+Print Assumptions C05_heat_additive_in_volume.
+
+Theorem C05_heat_nonneg : forall vol rho cp T Tinj, 0 <= vol -> 0 <= rho -> 0 <= cp -> Tinj <= T ->
+  0 <= heat_content vol rho cp T Tinj.
+Proof. exact heat_nonneg. Qed.
+Print Assumptions C05_heat_nonneg.
+
+(* ================================ reservoir classes that override the walk ================================ *)
+
+Theorem C05_cylindrical_single_layer : forall Ts g0 din, cyl_trock Ts g0 din = Tprofile Ts [] g0 (din * 1000).
+Proof. exact cyl_is_single_layer. Qed.
+Print Assumptions C05_cylindrical_single_layer.
+
+(* the cylindrical reservoir does not apply the Tmax cap (outside the property's quantifier: reservoir model 0) *)
+Theorem C05_cylindrical_no_cap_refuted : exists Ts g0 din Tmax, Ts < Tmax /\ 0 < g0 /\ Tmax < cyl_trock Ts g0 din.
+Proof. exact cyl_no_cap_refuted. Qed.
+Print Assumptions C05_cylindrical_no_cap_refuted.
+
+Theorem C05_sbt_single_segment : forall Ts g0 rest ep, sbt_trock 1 Ts (g0 :: rest) ep == Tprofile Ts [] g0 ep.
+Proof. exact sbt_single_segment. Qed.
+Print Assumptions C05_sbt_single_segment.
+
+(* SBT averages the segment gradients without their thicknesses (outside the property's quantifier: reservoir model 8) *)
+Theorem C05_sbt_unweighted_mean_refuted :
+  exists Ts g1 th1 g2 ep, 0 < g1 /\ 0 < g2 /\ 0 < th1 /\ th1 < ep /\
+    ~ sbt_trock 2 Ts [g1; g2] ep == Tprofile Ts [(g1, th1)] g2 ep.
+Proof. exact sbt_unweighted_mean_refuted. Qed.
+Print Assumptions C05_sbt_unweighted_mean_refuted.
+
 (* ================================ non-vacuity ================================ *)
 
 (* well-formed layers with Tsurf <= Tmax: 15 degC, 50 degC/km over 2 km, 30 degC/km over 1 km, 80 degC/km below; Tmax 400 *)
@@ -292,3 +384,21 @@ Proof.
   - unfold input_ok, default_depth_witness, prefill, user_pos. cbn. repeat split; try lia; try lra.
   - split; eexists; eexists; (split; [vm_compute; reflexivity|]); try split; vm_compute; reflexivity.
 Qed.
+
+(* the checkers accept a tiled history and reject one that rises inside a cycle *)
+Example C05_ex_checkers :
+  noninc_between 0 3 [100; 98; 95; 100; 98; 95; 100] = true /\ noninc_between 0 3 [100; 98; 99; 100] = false /\
+  noninc_between 0 0 [100; 98; 95] = true /\ lhs_range_ok 0 100 40 [100; 70; 100; 40] = true /\
+  lhs_range_ok 0 100 40 [100; 39] = false.
+Proof. repeat split; vm_compute; reflexivity. Qed.
+
+(* volume options on a concrete square-fracture reservoir: hypotheses of C05_volume_identity / option4 *)
+Definition C05_ex_res (opt : Z) : res_inputs :=
+  {| ri_shape := 3; ri_opt := opt; ri_area := 250000; ri_height := 600; ri_width := 500; ri_numb := 11; ri_sep := 50;
+     ri_resvol := 125000000; ri_pi := 355 # 113; ri_sqrt := 564; ri_rho := 2700; ri_cp := 1000; ri_Tinj := 50; ri_gain := 2 |}.
+Example C05_ex_volume :
+  (exists s, geometry_of (C05_ex_res 1) = Good s /\ fs_vol s == 180000000 /\ fs_area s == 360000) /\
+  (exists s, geometry_of (C05_ex_res 3) = Good s /\ fs_sep s == 3125 # 90) /\
+  (exists s, geometry_of (C05_ex_res 4) = Good s /\ fs_vol s == 125000000) /\
+  heat_content 125000000 2700 1000 200 52 == 4995 # 100.
+Proof. repeat split; try (eexists; split; [vm_compute; reflexivity|]); vm_compute; reflexivity. Qed.
